@@ -24,7 +24,7 @@ Qed.
 (* a rejected call changes nothing at all: no status, no stored change *)
 Theorem rejected_call_is_noop s call : fst (lstep s call) = false -> snd (lstep s call) = s.
 Proof.
-  destruct call as [c|c|c d n|c d n|c d n|c d n|c d n]; cbn [lstep]; try discriminate;
+  destruct call as [c|c|c d n|c d n|c d n|c d n|c d n|c d n]; cbn [lstep]; try discriminate;
     destruct (aget (l_clients s) c) as [x|]; try reflexivity;
     try (destruct (find_doc (lc_docs x) d) as [dd|]; try reflexivity);
     repeat match goal with
@@ -109,7 +109,7 @@ Proof.
   assert (G : forall s', l_removed s' = l_removed s \/ (exists x, l_removed s' = x :: l_removed s) -> is_removed s' d g = true).
   { intros s' [E|[x E]]; unfold is_removed in *; rewrite E; [exact H|]. cbn [existsb]. now rewrite H, orb_true_r. }
   apply G.
-  destruct call as [c|c|c d' n|c d' n|c d' n|c d' n|c d' n]; cbn [lstep];
+  destruct call as [c|c|c d' n|c d' n|c d' n|c d' n|c d' n|c d' n]; cbn [lstep];
     try (left; reflexivity);
     destruct (aget (l_clients s) c) as [x|]; try (left; reflexivity);
     try (destruct (find_doc (lc_docs x) d') as [dd|]; try (left; reflexivity));
@@ -152,7 +152,7 @@ Qed.
    next generation: a different document.) *)
 Theorem removed_stores_no_further_change s call d g :
   is_removed s d g = true ->
-  match call with LAttach _ _ _ | LAttachSame _ _ _ => False | _ => True end ->
+  match call with LAttach _ _ _ | LAttachSame _ _ _ | LAttachFail _ _ _ => False | _ => True end ->
   wget (l_writes (snd (lstep s call))) d g = wget (l_writes s) d g.
 Proof.
   intros H Hc.
@@ -161,7 +161,7 @@ Proof.
     - apply andb_prop in E. destruct E as [E1 E2]. apply N.eqb_eq in E1, E2. subst.
       unfold stored. rewrite H. apply wget_wadd_zero.
     - now apply wget_wadd_other. }
-  destruct call as [c|c|c d' n|c d' n|c d' n|c d' n|c d' n]; try contradiction; cbn [lstep];
+  destruct call as [c|c|c d' n|c d' n|c d' n|c d' n|c d' n|c d' n]; try contradiction; cbn [lstep];
     try reflexivity;
     destruct (aget (l_clients s) c) as [x|]; try reflexivity;
     try (destruct (find_doc (lc_docs x) d') as [dd|]; try reflexivity);
